@@ -154,7 +154,7 @@ def finish(rep, pid, extra_cov=None, level_note=None):
         is_post = any("postcondition" in f["property"] for f in fails)
         kf = None
         for k in known.get("findings", []):
-            if k["property"] == pid and re.search(k["function"], fn.sig.dem) and (not k.get("obligation") or any(k["obligation"] in f["property"] or k["obligation"] in f["description"] for f in fails)):
+            if k["property"] == pid and re.search(k["function"], t.get("dem") or fn.sig.dem) and (not k.get("obligation") or any(k["obligation"] in f["property"] or k["obligation"] in f["description"] for f in fails)):
                 kf = k
         src_assert = "source assertion" in f0.get("description", "")
         if res is None and src_assert and isinstance(out, str) and re.search(r"Assertion .* failed", out):
